@@ -167,3 +167,40 @@ func VerifC18RecordBatchesInc() {
 	verifrt.Assert(k == len(ts), "an evaluation step yields two output points, or one without samples yields a point")
 	verifrt.Reach("end")
 }
+
+// VerifC18RecordBatchesLastTwo: the same for the reducer behind irate / idelta (floatRateReducer with the real
+// floatIRateReduce / floatIRateUpdate and two carried points): every evaluation step whose window holds at
+// least two samples is evaluated once, in step order, on the last two samples of its window; a window with
+// fewer than two samples yields nothing.
+func VerifC18RecordBatchesLastTwo() {
+	recs, all, start, end, step, width := verifC18Scenario()
+	type call struct{ ts, prev, last int64 }
+	var calls []call
+	fm := func(prevTime, lastTime int64, prevValue, lastValue float64, ts int64, pointCount int, param *ReducerParams) (float64, bool) {
+		if lastTime == prevTime || pointCount < 2 {
+			return 0, true // as the real merge functions answer
+		}
+		calls = append(calls, call{ts, prevTime, lastTime})
+		return 1, false
+	}
+	verifC18Drive(newFloatRateReducer(floatIRateReduce, fm, floatIRateUpdate), recs, start, end, step, width)
+	k := 0
+	for t := start; t <= end; t += step {
+		var w []int64
+		for _, s := range all {
+			if s >= t-width && s <= t {
+				w = append(w, s)
+			}
+		}
+		if len(w) < 2 {
+			continue
+		}
+		verifrt.Assert(k < len(calls) && calls[k].ts == t, "an evaluation step with two or more samples in its window is not evaluated (or steps are out of order)")
+		if k < len(calls) && calls[k].ts == t {
+			verifrt.Assert(calls[k].prev == w[len(w)-2] && calls[k].last == w[len(w)-1], "an evaluation step is not evaluated on the last two samples of its window")
+		}
+		k++
+	}
+	verifrt.Assert(k == len(calls), "an evaluation step is evaluated twice, or one with fewer than two samples is evaluated")
+	verifrt.Reach("end")
+}
